@@ -10,6 +10,9 @@ import QlibcModel.Conf.IniRound
 import QlibcModel.Conf.IniRefs
 import QlibcModel.Conf.AconfFlat
 import QlibcModel.Conf.AconfNested
+import QlibcModel.Conf.AconfMalformed
+import QlibcModel.Conf.AconfNoNl
+import QlibcModel.Conf.AconfLong
 namespace Qlibc.Props.C20
 open Qlibc Qlibc.Conf Qlibc.Conf.Aconf
 
@@ -66,12 +69,21 @@ example : LineOk [([], ⟨[76], .bare, []⟩), ([32, 9], ⟨[97, 32, 34, 98, 34]
     backward), the environment, or the command stub — to the annotated text, then
     `qconfig_parse_str` yields exactly the entries written, in file order, with section prefixes and
     marker entries, every reference replaced by that text (the value in effect at that line).
-    Admissibility (`DocROk`): names/section names as in the partial theorem; literal pieces and
-    substituted texts contain no `$` (so nothing is rescanned) and no NUL; reference names contain
-    no `$ { }`; at most `_MAX_EXPANSIONS` references and `_MAX_VALUESIZE` bytes per value (beyond
+    Admissibility (`DocROk`): names/section names as in the partial theorem. A value is a sequence of
+    * literal pieces, which may contain `$`: every `$` must be followed inside the piece by a byte
+      other than `{` (`DollarOk`: no `${`, no `$` at the end) — exactly the condition under which the
+      scan steps over a `$` and `qstrreplace` copies it, so a literal `$` survives unchanged;
+    * references `${name}` / `${%ENV}` / `${!cmd}` (`Seg.tok`);
+    * references nested one level `${pre${inner}post}` (`Seg.nest`): the code resolves the innermost
+      `${inner}` first (to a text without `$ { }`), rescans, and then resolves the composed name
+      `pre·value(inner)·post` — modelled and proved as the code does it (two substitution rounds);
+    substituted texts satisfy `DollarOk` (so nothing of them is rescanned as a reference) and have no
+    NUL; reference names contain no `$ { }`; at most `_MAX_EXPANSIONS` substitution rounds
+    (`countTok`: one per reference, two per nested one) and `_MAX_VALUESIZE` bytes per value (beyond
     these the repaired code drops the entry with ELOOP).
-    Not covered by a theorem: nested references `${a${b}}` and literal `$` characters — both are in
-    the generated documents of the correspondence (checks/c20.py, stream `ini-grammar`). -/
+    Not covered by a theorem: deeper nesting, a `${` without closing `}` (the scan stops there and
+    leaves the rest unexpanded), substituted texts that themselves contain `${` (rescanned by the
+    code) — in the generated documents of the correspondence (checks/c20.py, `ini-grammar`). -/
 theorem ini_roundtrip (w : Ini.World) (sep : UInt8) (hsep : Str.isWs sep = false)
     (items : List (Ini.ItemR × Ini.Lay)) (finalNl : Bool) (hok : Ini.DocROk w sep none [] items) :
     Ini.parseStr w sep (Ini.renderDocR sep items finalNl) =
@@ -82,11 +94,21 @@ theorem ini_roundtrip (w : Ini.World) (sep : UInt8) (hsep : Str.isWs sep = false
     table built by the first line) -/
 example (w : Ini.World) : Ini.DocROk w 61 none []
     [(.entry [97] [.lit [49]], {}), (.entry [98] [.tok [97] [49], .lit [120]], {})] := by
-  simp [Ini.DocROk, Ini.ItemROk, Ini.LayOk, Ini.LayWs, Ini.NoByte, Ini.Tight, Ini.SegOk, Ini.NameOk, Ini.renderSegs,
+  simp [Ini.DocROk, Ini.ItemROk, Ini.LayOk, Ini.LayWs, Ini.NoByte, Ini.Tight, Ini.SegOk, Ini.DollarOk, Ini.NameOk, Ini.renderSegs,
     Ini.Seg.render, Ini.tokStr, Ini.countTok, Ini.Seg.isTok, Ini.bound, Ini.segBound, Ini.Seg.final, Str.isWs,
     Ini.entriesOf, Ini.ItemR.meaning, Ini.finalSegs, Ini.resolve, Ini.tblGet, Ini.sectAfter,
     Generated.Conf.maxExpansions, Generated.Conf.maxValueSize]
   decide
+
+/-- non-vacuity with a literal `$` and a nested reference: `a=b`, `pb=1`, `c=$5 ${p${a}}`
+    (the value of `c` is `$5 1`) -/
+example (w : Ini.World) : Ini.DocROk w 61 none []
+    [(.entry [97] [.lit [98]], {}), (.entry [112, 98] [.lit [49]], {}),
+     (.entry [99] [.lit [36, 53, 32], .nest [112] [97] [98] [] [49]], {})] := by
+  simp [Ini.DocROk, Ini.ItemROk, Ini.LayOk, Ini.LayWs, Ini.NoByte, Ini.Tight, Ini.SegOk, Ini.DollarOk, Ini.NameOk,
+    Ini.renderSegs, Ini.Seg.render, Ini.tokStr, Ini.countTok, Ini.Seg.weight, Ini.bound, Ini.segBound, Ini.Seg.final,
+    Str.isWs, Ini.entriesOf, Ini.ItemR.meaning, Ini.finalSegs, Ini.resolve, Ini.tblGet, Ini.sectAfter,
+    Generated.Conf.maxExpansions, Generated.Conf.maxValueSize]
 
 /-- ini_roundtrip_partial (the reference-free special case, kept for its simpler hypotheses): for every document of the reference-free grammar (blank lines, comments,
     `[section]` / `[]` headers, `name sep value` entries), every separator that is not white
@@ -131,8 +153,11 @@ example : ∀ x ∈ [((Ini.Item.sect [110, 101, 116]), ({ a := [32], b := [32], 
       same level (0 if none) — `newsectionid` is only assigned for registered options;
     * the close callback of such an unregistered section is the default handler called with the
       CLOSE tag's own data (inner context, the close tag's words), not the opening directive's.
-  Not covered by a theorem: a last line without `\n`, over-long (chunked) lines, unclosed or
-  mismatched sections (error paths; in the correspondence, checks/c20.py).
+  Malformed nesting (a section still open at the end of the input, a closing tag that closes
+  nothing) is `ac_malformed` below; a last line without `\n` is `ac_no_final_newline`.
+  Over-long lines: `ac_long_line_chunks_partial` says what `fgets` splits them into; that each piece is
+  then handled as a line of its own is the definition of the loop (correspondence: checks/c17 long-line
+  streams), no document-level accept/reject theorem for files with such lines.
 -/
 
 /-- ac_callbacks: for every option table, flags, default-handler setting, callback-refusal predicate
@@ -197,6 +222,109 @@ theorem ac_accept_iff_count (cfg : Cfg) (d : AcDoc) (hok : DocOk cfg.ci d) :
       | count n => exact ⟨evs, n, rfl⟩
       | err l m => simp [Except.map, Res.toF] at h
 
+/-- ac_malformed (ac_accept_iff / ac_callbacks for malformed nesting): for every table, flags,
+    default-handler setting and callback-refusal predicate and every document of the grammar `MDoc`
+    — well-formed text interleaved with opening tags of sections that are never closed, possibly
+    ending in a closing tag that closes nothing (top level, or another name than the innermost open
+    section) followed by ARBITRARY text — `parse` makes exactly the callbacks of the well-formed
+    parts and of the opening tags, in file order, up to the first offence (`walkM`), and fails with
+    the line of that offence: the first offending line of a well-formed part, a non-conforming /
+    refused / too deeply nested opening tag, the closing tag that closes nothing, or, when the
+    input ends inside a section, the number of the last line read ("<name> section was not
+    closed."). Only `done d` at top level can be accepted (`walkM_err`). -/
+theorem ac_malformed (cfg : Cfg) (m : MDoc) (hok : MDocOk cfg.ci m none) :
+    (parse cfg (renderM m)).map (fun x => (x.1, x.2.toF)) = .ok (walkM cfg m Ctx.root true 0) := by
+  rw [parse_malformed cfg m hok, specM_eq_walkM]
+  cases hw : (walkM cfg m Ctx.root true 0).2 with
+  | errLine k =>
+    have : walkM cfg m Ctx.root true 0 = ((walkM cfg m Ctx.root true 0).1, .errLine k) := by rw [← hw]
+    rw [this]; simp
+  | count n =>
+    have : walkM cfg m Ctx.root true 0 = ((walkM cfg m Ctx.root true 0).1, .count n) := by rw [← hw]
+    rw [this]; simp
+
+/-- ac_malformed, the rejection: a document with an unclosed section or a closing tag that closes
+    nothing is never accepted — `parse` returns −1 and names a line -/
+theorem ac_malformed_rejected (cfg : Cfg) (m : MDoc) (hok : MDocOk cfg.ci m none) (hm : ∀ d, m ≠ .done d) :
+    ∃ evs k, (parse cfg (renderM m)).map (fun x => (x.1, x.2.toF)) = .ok (evs, .errLine k) := by
+  obtain ⟨k, hk⟩ := walkM_err cfg m Ctx.root true 0 (Or.inr hm)
+  refine ⟨(walkM cfg m Ctx.root true 0).1, k, ?_⟩
+  rw [ac_malformed cfg m hok, ← hk]
+
+/-- ac_malformed, the two basic shapes at top level with conforming well-formed parts:
+    (1) `d` then a closing tag: the callbacks of `d`, error at the tag's line;
+    (2) `d`, an accepted opening tag, `body`, end of input: the callbacks of `d`, of the tag and of
+        `body`, error at the last line of the input -/
+theorem ac_stray_close (cfg : Cfg) (d : AcDoc) (cl : Tag) (tail : Bytes) (hok : MDocOk cfg.ci (.stray d cl tail) none)
+    (hc : Conforms cfg d Ctx.root 0) :
+    (parse cfg (renderM (.stray d cl tail))).map (fun x => (x.1, x.2.toF)) =
+      .ok (callbacks cfg d, .errLine (d.lines + 1)) := by
+  rw [ac_malformed cfg _ hok]
+  have hw : (walk cfg d Ctx.root 0).2 = none := (walk_conforms cfg d Ctx.root 0).mpr hc
+  simp only [walkM, callbacks]
+  cases hww : walk cfg d Ctx.root 0 with
+  | mk es r => rw [hww] at hw; simp only [] at hw; subst hw; rfl
+
+theorem ac_unclosed (cfg : Cfg) (d body : AcDoc) (o : Tag) (hok : MDocOk cfg.ci (.unclosed d o (.done body)) none)
+    (hc : Conforms cfg d Ctx.root 0) (ev : Option Event) (argv : List Bytes) (ns' : Nat)
+    (hj : judgeLine cfg Ctx.root Generated.Conf.otypeOpen (nsAfter cfg d Ctx.root 0) o.texts = .pass ev argv ns')
+    (hb : Conforms cfg body (Ctx.root.enter ns' argv) 0) :
+    (parse cfg (renderM (.unclosed d o (.done body)))).map (fun x => (x.1, x.2.toF)) =
+      .ok (callbacks cfg d ++ ev.toList ++ (walk cfg body (Ctx.root.enter ns' argv) 0).1,
+           .errLine (d.lines + 1 + body.lines)) := by
+  rw [ac_malformed cfg _ hok]
+  have hw : (walk cfg d Ctx.root 0).2 = none := (walk_conforms cfg d Ctx.root 0).mpr hc
+  have hwb : (walk cfg body (Ctx.root.enter ns' argv) 0).2 = none := (walk_conforms cfg body _ 0).mpr hb
+  have hroot : Ctx.root.level ≠ 255 := by decide
+  simp only [walkM, callbacks, hroot, if_false, hj]
+  cases hww : walk cfg d Ctx.root 0 with
+  | mk es r =>
+    rw [hww] at hw; simp only [] at hw; subst hw
+    cases hwwb : walk cfg body (Ctx.root.enter ns' argv) 0 with
+    | mk es2 r2 =>
+      rw [hwwb] at hwb; simp only [] at hwb; subst hwb
+      simp [FRes.shift]; omega
+
+/-- ac_long_line_chunks_partial: a line of `n` bytes (`n < (f+1)·(MAX_LINESIZE−1)`) followed by `\n`
+    is delivered by `fgets` as the pieces `splitLong f line`: `⌊n/(MAX_LINESIZE−1)⌋` full pieces of
+    `MAX_LINESIZE − 1` bytes without newline, then the remainder (possibly empty) with the newline;
+    the rest of the file is read as before. `_parse_inline` calls `fgets` once per loop round, so
+    every piece is a "line" of its own: counted in `lineno`, trimmed, tokenized and dispatched
+    separately (`ac_long_comment_tail`: the tail of an over-long comment is NOT a comment).
+    PARTIAL: the reading level only; missing is a document-level statement (`Conforms` over the
+    pieces) — the grammar theorems above require every line to be shorter than MAX_LINESIZE − 1. -/
+theorem ac_long_line_chunks_partial (f : Nat) (line rest : Bytes) (k : Nat) (hno : ∀ c ∈ line, c ≠ 10)
+    (hlen : line.length < (f + 1) * (Generated.Conf.maxLineSize - 1)) :
+    readLines ((splitLong f line).length + k) (line ++ 10 :: rest) = splitLong f line ++ readLines k rest :=
+  readLines_long f line rest k hno hlen
+
+theorem ac_long_comment_tail (cfg : Cfg) (fuel sid : Nat) (parent : Option CbData) (oc ns ln : Nat) (evs : List Event)
+    (body rest : Bytes) (hno : ∀ c ∈ body, c ≠ 10 ∧ c ≠ 0)
+    (hlen : Generated.Conf.maxLineSize - 1 ≤ (35 :: body).length) :
+    parseInline cfg (fuel + 1) sid parent oc ns ⟨35 :: body ++ 10 :: rest, ln, evs⟩ =
+      parseInline cfg fuel sid parent oc ns
+        ⟨(35 :: body).drop (Generated.Conf.maxLineSize - 1) ++ 10 :: rest, ln + 1, evs⟩ :=
+  long_comment_tail cfg fuel sid parent oc ns ln evs body rest hno hlen
+
+/-- ac_no_final_newline: if the text after the last `\n` of a file is non-empty, has no `\n` and is
+    shorter than MAX_LINESIZE − 1, `parse` returns exactly what it returns for the file with a
+    terminating newline: the same callbacks, the same count or the same error line and message.
+    With `ac_callbacks` / `ac_malformed`: every statement above also holds for the rendered document
+    without its final LF. -/
+theorem ac_no_final_newline (cfg : Cfg) (pre last : Bytes) (hpre : Hpre pre) (hlast : Hlast last) :
+    parse cfg (pre ++ last) = parse cfg (pre ++ last ++ [10]) :=
+  parse_noFinalNewline cfg pre last hpre hlast
+
+theorem ac_callbacks_no_final_newline (cfg : Cfg) (d : AcDoc) (hok : DocOk cfg.ci d) (pre last : Bytes)
+    (hd : renderAc d = pre ++ last ++ [10]) (hpre : Hpre pre) (hlast : Hlast last) :
+    (parse cfg (pre ++ last)).map (fun x => (x.1, x.2.toF)) =
+      .ok (callbacks cfg d,
+        match firstOffenceLine cfg d with
+        | none => .count (d.directives + 2 * d.sections)
+        | some i => .errLine i) := by
+  rw [ac_no_final_newline cfg pre last hpre hlast, ← hd]
+  exact ac_callbacks cfg d hok
+
 /-- non-vacuity: `<Host a>`, ` <Dir >`, `Port 80`, `</Dir>`, `</ Host>` — two levels of nesting -/
 def exDoc : AcDoc :=
   .sect { args := [([], ⟨[72, 111, 115, 116], .bare, []⟩), ([32], ⟨[97], .bare, []⟩)] }
@@ -208,6 +336,18 @@ def exDoc : AcDoc :=
 example : DocOk false exDoc := by
   simp [exDoc, DocOk, OpenOk, CloseOk, TagOk, ArgsOk, FLineOk, LineOk, WsRun, Admissible, Tag.texts, renderArg,
     renderOpen, renderClose, renderArgs, isBlank, Str.isWs, nameEq, Generated.Conf.maxLineSize]
+
+/-- non-vacuity of `MDocOk`: `<Host a>`, `Port 80` and then the end of the input; and `Port 80`,
+    `</Host>` followed by arbitrary bytes -/
+example : MDocOk false (.unclosed .nil { args := [([], ⟨[72, 111, 115, 116], .bare, []⟩), ([32], ⟨[97], .bare, []⟩)] }
+    (.done (.line (.dir [([], ⟨[80, 111, 114, 116], .bare, []⟩), ([32], ⟨[56, 48], .bare, []⟩)] []) .nil))) none := by
+  simp [MDocOk, DocOk, OpenOk, TagOk, ArgsOk, FLineOk, LineOk, WsRun, Admissible, Tag.texts, renderArg,
+    renderOpen, renderArgs, isBlank, Str.isWs, Generated.Conf.maxLineSize]
+
+example : MDocOk false (.stray (.line (.dir [([], ⟨[80, 111, 114, 116], .bare, []⟩), ([32], ⟨[56, 48], .bare, []⟩)] []) .nil)
+    { args := [([], ⟨[72, 111, 115, 116], .bare, []⟩)] } [0, 60, 255]) none := by
+  simp [MDocOk, DocOk, CloseOk, TagOk, ArgsOk, FLineOk, LineOk, WsRun, Admissible, Tag.texts, renderArg,
+    renderClose, renderArgs, isBlank, Str.isWs, closesNothing, Generated.Conf.maxLineSize]
 
 /-- a table for it: `Host` (1 argument, section id 2, allowed at ROOT), `Dir` (no argument, id 4,
     allowed in section 2), `Port` (1 INT argument, allowed in section 4) -/
